@@ -21,6 +21,8 @@ func scenarios(tier string) []svc.Scenario {
 	sc := []svc.Scenario{
 		{Name: "data-tag", Program: []string{"addtag:tag/d=cdata:foo", "import:P1", "import:P2", "view.open:v1", "import:P3"}},
 		{Name: "tag-reference", Program: []string{"import:P1", "addtag:tag/p=cport:1", "addtag:tag/r=-tag:p", "import:P2", "import:P3"}},
+		// the referenced tag's answer for stream 0 changes when P3 extends it; the referring tag reads data only through it
+		{Name: "tag-reference-through-data-tag", Program: []string{"import:P1", "addtag:tag/d=cdata:foo3", "addtag:tag/r=tag:d sport:53", "import:P3", "import:P2"}},
 		{Name: "marks", Program: []string{"import:P1+P2", "addtag:mark/m=id:0", "markadd:mark/m=1", "view.open:v1", "import:P3", "markdel:mark/m=0", "view.release:v1"}},
 		{Name: "id-tag", Program: []string{"import:P1", "addtag:tag/i=id:1:", "import:P2", "import:P3"}},
 		{Name: "views-and-merges", Program: []string{"import:P1", "import:P2", "view.open:v1", "import:P3", "view.open:v2", "view.release:v1", "import:P4"}},
